@@ -4,7 +4,10 @@ In-package harness hooks/engine/c14_test.go (+ c14_glue_test.go in package engin
 services/retention, + the accessor hooks/services/retention/c14_hook.go): the REAL retention.Service.handle
 drives a REAL EngineImpl with real shards on disk and a REAL meta.Data catalogue inside one testing/synctest
 bubble per worker (virtual clock). Every history of the bounded alphabet is executed, a reference model of
-"expired" decides every step. See notes/C14.md."""
+"expired" decides every step. The catalogue client handed to the service is a fault seam: every call a
+retention run makes through it (discovered by a recording run, not listed by hand) can be made to fail;
+"the k-th call of this run fails" / "every call of one method fails" / "every call fails" are operations of
+the alphabet (at most one such run per history). See notes/C14.md."""
 import os, re, shutil, tempfile, time
 import checklib
 
@@ -50,27 +53,42 @@ SPEC = dict(
     overlay_extra=overlay_extra,
     level="model_checking",
     workers=16,
-    deadline={"quick": 170, "thorough": 1800},
+    deadline={"quick": 180, "thorough": 2100},
     env={"GOMAXPROCS": "2"},
     rule="every history = root (initial policy duration in {G, 2G, 0=unlimited} x first shard {written and open, only in the catalogue = "
          "not loaded}) followed by every sequence of <= d-1 operations of {advance the clock to end+D-1ns / end+D / end+D+1ns of the oldest live "
          "group under the duration in force, advance by the service interval, retention run, retention run with one concurrent writer per open "
          "shard, ALTER duration to 0 / G/2 / G / 2G, write a point at now / at now-D (edge of the window) / at now-D-G (outside), create a "
-         "catalogue-only group at now / at now-D} and a final retention run (d = 4 quick, 5 thorough); an operation that leaves the complete "
-         "state digest unchanged cuts its branch; the oracle runs after every step of the real code. evaluations = transitions of the real "
-         "code that were checked (each counted by exactly one worker) + decisions of the expiry table; distinct_nontrivial = distinct states "
-         "(clock position relative to end+d of every live group for every d of the menu, catalogue dump, engine shard and index sets with the "
-         "durations they hold, storage directories, model) reached by a state-changing transition, + distinct table cells",
+         "catalogue-only group at now / at now-D, and the fault variants of the retention run at the catalogue-client seam: H!k = the k-th "
+         "catalogue call of this run fails, for every k up to the number of calls the run makes from that state (taken from the fault-free run "
+         "of the same state; GetShardDurationInfo, GetIndexDurationInfo, then per expired shard DeleteShardGroup + PruneGroupsCommand, per "
+         "expired index DeleteIndexGroup + PruneGroupsCommand: 2..10 calls seen), H!S / H!I / H!DSG / H!DIG / H!PG = every call of one "
+         "MetaClient method fails (where >= 2 such calls are made), H!* = every call fails; a failed call returns an error (DataIsOlder for the "
+         "two duration calls) and leaves the catalogue unchanged; at most one faulted run per history} and a final retention run (plain, with "
+         "writers, or a fault variant) (d = 4 quick, 5 thorough); an operation that leaves the complete state digest unchanged cuts its "
+         "branch; the oracle runs after every step of the real code. evaluations = transitions of the real code that were checked (each "
+         "counted by exactly one worker) + decisions of the expiry table; distinct_nontrivial = distinct states (clock position relative to "
+         "end+d of every live group for every d of the menu, catalogue dump, engine shard and index sets with the durations they hold, "
+         "storage directories, what the service remembers between runs, model) reached by a state-changing transition, + distinct table "
+         "cells. counters: faulted_runs = checked transitions that are runs with an injected failure, fault_site_<k>_<method> = such runs per "
+         "failing call position, fault_method_<m> = runs with every call of one method failing",
     assumptions=[
         "testing/synctest virtual clock: time.Now() of the code under test is the bubble clock; lib/fasttime (coordinator's up-front "
         "WritePointOutOfRP test, mergeset merge pacing) runs on the real clock outside the bubble and is not part of this check",
         "one data node, one partition, one measurement; the MetaClient handed to the service applies each command to meta.Data the way "
         "ts-meta's store does (no raft, no RPC); the shared-storage (logkeeper) branch of handle() is not exercised",
+        "fault model at the catalogue-client seam: a failing call returns an error and is NOT applied (no lost-reply case where the "
+        "command was applied but the client saw an error); at most one retention run with injected failures per history, inside the same "
+        "depth bound; failures are injected into plain runs only (not into the run with concurrent writers); engine calls (DeleteShard, "
+        "DeleteIndex) are never made to fail",
         "three background tick periods that do not take part in retention are lengthened by overlay copies of the current tree (shard "
         "snapshot ticker 100ms -> 20min, mergeset raw-item flusher and idle merger 1s -> 20min) and DBPTInfo load reporting is set to 20min, "
         "so that a virtual hour costs milliseconds; the compaction worker is re-created inside the bubble",
         "strict boundary (DESIGN 3a): a shard whose end + duration equals now is not yet deletable; removal of an expired shard from "
-        "catalogue, engine and storage is demanded after the second consecutive retention run at which it was expired",
+        "catalogue, engine and storage is demanded after the second consecutive FAULT-FREE retention run at which it was expired (a run "
+        "with a failed catalogue call may delay removal: it neither counts nor resets; it must never delete what is not expired under the "
+        "duration in force); a write the catalogue routes into a group whose deletion was interrupted by a failed mark-delete call creates "
+        "no obligation (counted)",
     ],
 )
 
@@ -106,9 +124,12 @@ def run(tier, replay):
         reps = checklib.run_workers(cid, binp, SPEC["test"], tier, SPEC["workers"], dl, scratch, extra_env=SPEC["env"])
         depth = max((r.get("counters") or {}).get("max_depth", 0) for r in reps)
         return checklib.finish(cid, tier, SPEC["level"], SPEC["rule"], reps, t0, SPEC["assumptions"], model=True,
-                               extra_cov={"bound": {"history_len": depth, "alphabet": 15, "roots": 6,
+                               extra_cov={"bound": {"history_len": depth, "alphabet": "15 operations + fault variants of the retention run "
+                                                    "(H!1..H!n for the n catalogue calls the run makes, H!S H!I H!DSG H!DIG H!PG, H!*)",
+                                                    "faulted_runs_per_history": 1, "roots": 6,
                                                     "durations": ["0", "G/2 (refused by the catalogue)", "G", "2G"],
-                                                    "shard_group_duration": "1h", "last_operation": "retention run (H or Hw)"}})
+                                                    "shard_group_duration": "1h",
+                                                    "last_operation": "retention run (H, Hw or a fault variant of H)"}})
     finally:
         shutil.rmtree(scratch, ignore_errors=True)
 
@@ -119,22 +140,30 @@ MANIFEST = dict(
     engine="seqx",
     technique="explicit-state exploration of the real implementation under a virtual clock (testing/synctest): every history of a 15-operation "
               "alphabet (clock to end+D-1ns / end+D / end+D+1ns, service interval, retention run with and without concurrent writers, ALTER "
-              "duration, in-window / edge / out-of-window writes, catalogue-only groups) up to the bound is executed on a fresh real engine + "
-              "real catalogue + real retention service, with no-op pruning; a reference model of 'expired' (end + duration in force < now, "
-              "strict; 0 = never) decides every transition; plus a decision table of Engine.ExpiredShards over durations x clock positions",
+              "duration, in-window / edge / out-of-window writes, catalogue-only groups) extended by fault enumeration at the catalogue-client "
+              "seam (retention run with the k-th catalogue call failing for every k the run reaches, with every call of one method failing, "
+              "with every call failing; <= 1 faulted run per history) up to the bound is executed on a fresh real engine + real catalogue + "
+              "real retention service, with no-op pruning; a reference model of 'expired' (end + duration in force < now, strict; 0 = never) "
+              "decides every transition; plus a decision table of Engine.ExpiredShards over durations x clock positions",
     text="The real retention service (services/retention handle()) is wired to a real storage engine with real shards on disk and a real "
          "catalogue (meta.Data) inside a virtual-clock bubble. From 6 roots (initial duration G / 2G / unlimited x first shard open / not "
-         "loaded) every sequence of up to 3 (quick) or 4 (thorough, plus 5 over a 9-operation core alphabet) operations followed by a "
-         "retention run is executed; after every step the model checks: nothing of a shard group is removed unless its end + the duration "
+         "loaded) every sequence of up to 3 (quick) or 4 (thorough, plus 5 over a 9-operation core alphabet, there with the final run "
+         "plain, with writers, or with a failed duration refresh) operations followed by a retention run is executed; after every step the model checks: nothing of a shard group is removed unless its end + the duration "
          "in force at that run is strictly before the run's clock reading (so: never under duration 0, not at the exact expiry instant, "
          "not under a duration that an earlier ALTER replaced); every acknowledged point of every group that is not expired is returned by "
-         "the shard's cursor, including points written concurrently with the run; a group expired at two consecutive runs is gone from "
-         "catalogue (pruned), engine and both storage directories. An expiry table checks ExpiredShards for durations {0, 1ns, G/2, G, 2G, "
+         "the shard's cursor, including points written concurrently with the run; a group expired at two consecutive fault-free runs is "
+         "gone from catalogue (pruned), engine and both storage directories. Every call the run makes to the catalogue "
+         "(GetShardDurationInfo, GetIndexDurationInfo, DeleteShardGroup, DeleteIndexGroup, PruneGroupsCommand; the positions are discovered "
+         "by a recording run) is also made to fail, one position / one method / all at a time, in at most one run per history: such a run "
+         "may delay removal but must not delete anything that is not expired under the duration in force (e.g. go on with the durations the "
+         "engine cached before an ALTER when the refresh failed). An expiry table checks ExpiredShards for durations {0, 1ns, G/2, G, 2G, "
          "3G} at end+d-1ns / end+d / end+d+1ns for an open and for a not-loaded shard. Exhaustive within the bounds; no violation on the "
          "unchanged tree.",
     note="Trusts: Go runtime and testing/synctest (virtual time), the 60-line MetaClient adapter (applies commands to meta.Data like ts-meta's "
          "store, no raft/RPC), the harness's restatement of Storage.Write, the reference model. Three retention-unrelated tick periods are "
          "lengthened and the compaction worker is re-created inside the bubble (overlay, from the current tree). Not covered: more than one "
-         "node/partition, tiering, down-sampling, per-measurement TTL, logkeeper/shared storage, failures of DeleteShard, the coordinator's "
-         "up-front WritePointOutOfRP test (reads lib/fasttime, outside the virtual clock), histories beyond the bound.",
+         "node/partition, tiering, down-sampling, per-measurement TTL, logkeeper/shared storage, failures of the engine calls (DeleteShard, "
+         "DeleteIndex), catalogue calls that are applied although the client sees an error, more than one faulted run per history, "
+         "restarts, the coordinator's up-front WritePointOutOfRP test (reads lib/fasttime, outside the virtual clock), histories beyond "
+         "the bound.",
 )
